@@ -695,7 +695,7 @@ def run_case(case):
 # Real files
 # ---------------------------------------------------------------------------------------------
 
-MANIPS = ["append", "truncate", "same_size_bump", "same_size_restore", "chmod", "rename_replace",
+MANIPS = ["append", "truncate", "same_size_bump", "same_size_restore", "same_size_older", "chmod", "rename_replace",
           "rename_replace_restore", "touch", "rewrite_same", "delete", "recreate", "shrink_grow",
           "mode_only_restore", "noop"]
 
@@ -754,7 +754,7 @@ def run_files(case, rng, real, counters, vio):
                 with open(path, "r+b") as fh:
                     fh.truncate(len(new_content))
                 ns = next_ns(); os.utime(path, ns=(ns, ns))
-            elif manip in ("same_size_bump", "same_size_restore"):
+            elif manip in ("same_size_bump", "same_size_restore", "same_size_older"):
                 old = os.stat(path)
                 flipped = bytes((b ^ 0x55) for b in new_content)
                 with open(path, "r+b") as fh:
@@ -762,6 +762,10 @@ def run_files(case, rng, real, counters, vio):
                 new_content = flipped
                 if manip == "same_size_bump":
                     ns = next_ns(); os.utime(path, ns=(ns, ns))
+                elif manip == "same_size_older":
+                    # e.g. restored from a backup or an archive: the time stamp goes back
+                    ns = old.st_mtime_ns - rng.choice([1_000, 1_000_000_000, 86_400_000_000_000])
+                    os.utime(path, ns=(ns, ns))
                 else:
                     os.utime(path, ns=(old.st_atime_ns, old.st_mtime_ns))
             elif manip == "chmod":
